@@ -6,11 +6,13 @@ property monitors on the implementation's observations.
 -/
 import GcpVerif.Driver.Common
 import GcpVerif.Driver.ME
+import GcpVerif.Driver.Pool
 open GcpVerif.Driver
 
 structure DrvState where
   rep : Report := {}
   me : MEDrv.Sess := {}
+  pool : PoolDrv.Sess := {}
   deriving Inhabited
 
 def handleLine (st : DrvState) (ln : Nat) (line : String) : DrvState :=
@@ -19,6 +21,9 @@ def handleLine (st : DrvState) (ln : Nat) (line : String) : DrvState :=
   | "me" :: toks =>
     let (sess, rep) := MEDrv.handle st.me { st.rep with lines := st.rep.lines + 1 } ln toks obs
     { st with me := sess, rep := rep }
+  | "pool" :: toks =>
+    let (sess, rep) := PoolDrv.handle st.pool { st.rep with lines := st.rep.lines + 1 } ln toks obs
+    { st with pool := sess, rep := rep }
   | _ => { st with rep := st.rep.msg s!"BAD line={ln} unknown model" }
 
 partial def loop (h : IO.FS.Stream) (st : DrvState) (ln : Nat) : IO DrvState := do
